@@ -14,6 +14,7 @@ import yarl
 from multidict import CIMultiDict
 from propcache import under_cached_property
 
+from . import hdrs
 from .abc import AbstractAccessLogger, AbstractAsyncAccessLogger, AbstractStreamWriter
 from .base_protocol import PAUSE_RESUME_READING_ERRORS, BaseProtocol
 from .helpers import (
@@ -947,6 +948,17 @@ class RequestHandler(BaseProtocol, Generic[_Request]):
                 status=exc.status, reason=exc.reason, text=exc.text, headers=exc.headers
             )
             prepare_meth = resp.prepare
+        if (
+            request.method == hdrs.METH_CONNECT
+            and not 200 <= resp.status < 300
+            and self._parser is not None
+        ):
+            # https://www.rfc-editor.org/rfc/rfc9110#section-9.3.6
+            # Only a 2xx response switches to tunnel mode, but the parser did
+            # so on reading the request: whatever the client sends next would
+            # be swallowed as tunnel data. End the tunnel and close instead.
+            resp.force_close()
+            self._parser.feed_eof()
         try:
             await prepare_meth(request)
             await resp.write_eof()
